@@ -290,6 +290,8 @@ def run(ctx):
         protocol.report(ctx, tu, lambda r: r in ("C03.d", "C03.b"))
         from rules import C15
         C15.c15c(ctx, tu)    # C03.f: a call beyond the upper bound is reported naming the saturated expectation
+        from rules import C04
+        C04.c04h(ctx, tu)    # ... also after the mock has been moved (the saturated list moves with it)
         units.append({"unit": tu.name, "functions": len(tu.fns)})
     ctx.floor("C03.b TIMES instantiations", nt, 4)
     ctx.floor("C03.e RT_TIMES instantiations", nr, 2)
